@@ -92,6 +92,7 @@ type MRealm struct {
 	Subs          []*MSub
 	Regs          []*MReg
 	Calls         []*MCall
+	Lenient       bool // do not model identity disclosure (left to C12)
 	nSub, nReg    int
 	nPub, nInv    int
 }
@@ -524,7 +525,7 @@ func (m *MRealm) Publish(s int, req wamp.ID, opts wamp.Dict, topic string, args 
 			if sub.Match != "exact" {
 				kv = append(kv, "topic", fmt.Sprintf("%q", topic))
 			}
-			if disclose && rs.Feat["subscriber.publisher_identification"] {
+			if disclose && rs.Feat["subscriber.publisher_identification"] && !m.Lenient {
 				kv = append(kv, "publisher", fmt.Sprint(pub.ID))
 				if a, ok := pub.Details["authid"]; ok {
 					kv = append(kv, "publisher_authid", fmt.Sprintf("%q", a))
@@ -591,7 +592,7 @@ func (m *MRealm) Register(s int, req wamp.ID, opts wamp.Dict, proc string) []Exp
 	sid := m.Sess[s].ID
 	reg := m.findReg(proc, match)
 	if reg != nil {
-		shared := func(p string) bool { return p != "" && p != "single" }
+		shared := func(p string) bool { return p == "first" || p == "last" || p == "roundrobin" || p == "random" }
 		if !shared(reg.Invoke) || reg.Invoke != invoke {
 			return []Exp{{To: s, Text: errText(wamp.REGISTER, req, "wamp.error.procedure_already_exists")}}
 		}
@@ -630,8 +631,12 @@ func (m *MRealm) removeCallee(reg *MReg, s int) (deleted bool) {
 
 func (m *MRealm) Unregister(s int, req wamp.ID, sym int) []Exp {
 	reg := m.regBySym(sym)
-	if reg == nil || !contains(reg.Callees, s) {
+	if reg == nil {
 		return []Exp{{To: s, Text: errText(wamp.UNREGISTER, req, "wamp.error.no_such_registration")}}
+	}
+	if !contains(reg.Callees, s) {
+		// another session's registration: must not be touched; either answer is accepted
+		return []Exp{{To: s, Alt: []string{fmt.Sprintf("UNREGISTERED(%d)", req), errText(wamp.UNREGISTER, req, "wamp.error.no_such_registration")}}}
 	}
 	sid := m.Sess[s].ID
 	del := m.removeCallee(reg, s)
@@ -698,7 +703,7 @@ func (m *MRealm) invDetails(reg *MReg, caller, callee *MSess, opts wamp.Dict, pr
 	} else if discloseMe && callee.Feat["callee.caller_identification"] {
 		ident = true
 	}
-	if ident {
+	if ident && !m.Lenient {
 		kv = append(kv, "caller", fmt.Sprint(caller.ID))
 		if a, ok := caller.Details["authid"]; ok {
 			kv = append(kv, "caller_authid", fmt.Sprintf("%q", a))
@@ -927,7 +932,10 @@ func (m *MRealm) Leave(s int, announce bool) []Exp {
 		}
 		if c.Callee == s {
 			m.finish(c)
-			if m.Sess[c.Caller].Alive && c.Caller != s && c.Canceled != "killnowait" && c.Canceled != "skip" {
+			if c.Caller == s {
+				// calling oneself and leaving: an error to the departing session is allowed, not required
+				out = append(out, Exp{To: s, Alt: []string{fmt.Sprintf("ERROR(%d,%d,*)", int(wamp.CALL), c.Req), ""}})
+			} else if m.Sess[c.Caller].Alive && c.Canceled != "killnowait" && c.Canceled != "skip" {
 				out = append(out, Exp{To: c.Caller, Text: fmt.Sprintf("ERROR(%d,%d,*)", int(wamp.CALL), c.Req)})
 			}
 		} else if c.Caller == s {
